@@ -91,8 +91,13 @@ pub struct Snap {
     pub supply: u128, pub lp: Vec<u128>, pub col: [u128; 2], pub users: Vec<[u128; 2]>,
 }
 
-pub fn snap(w: &PairWorld) -> Snap {
-    let pool = w.query_pool().unwrap();
+pub fn snap(w: &PairWorld) -> Snap { try_snap(w).expect("Pool query") }
+/// None when the pair's Pool query fails (it must answer in every reachable state)
+pub fn try_snap(w: &PairWorld) -> Option<Snap> {
+    let pool = w.query_pool().ok()?;
+    Some(snap_with(w, pool))
+}
+fn snap_with(w: &PairWorld, pool: pair::PoolResponse) -> Snap {
     let who = |i: usize| -> &str { if i == 0 { w.pair.as_str() } else { ACCTS[i] } };
     Snap {
         bal: [w.pool_bal(0), w.pool_bal(1)],
@@ -209,7 +214,10 @@ pub fn run_case(out: &mut Out, prop: &str, case: &PairCase) -> Option<CaseResult
         // quote before a swap (C14)
         let sim = if let POp::Swap { dir, x, .. } = op { Some(w.simulate(*dir as usize, *x)) } else { None };
         let r = exec(&mut w, op);
-        let mut cur = snap(&w);
+        let mut cur = match try_snap(&w) { Some(s) => s, None => {
+            out.monitor_fail(prop, "the pair's Pool query fails in a state the history reached (reported reserves must exist and be backed)", replay(k, "pool query"));
+            break;
+        } };
         // `col` = what the collector received FROM COLLECTIONS: swap proceeds addressed to the collector are kept apart
         for i in 0..2 { cur.col[i] -= col_in[i]; }
         let mut to_collector = 0u128;
